@@ -182,6 +182,32 @@ def run_trace(ck, rng, quick):
         elif not closed and len(resp_tx) < len(issued):
             bad = "%d of %d accepted responses were never transmitted although the window was acknowledged repeatedly (first missing: %s)" % (
                 len(issued) - len(resp_tx), len(issued), issued[len(resp_tx)])
+        if not bad:
+            # replies go ahead of all events still waiting: a reply issued before the previous transmission report (i.e. certainly in an
+            # earlier command; the harness reports what was written at the end of each command, in write order) and not yet written must
+            # not be preceded by an event in the next report
+            pend_prev, pend_new = [], []        # issued before / after the last tx line, not yet transmitted
+            for l in cout:
+                if l.startswith("send c0 ") and l.endswith("ret=1"):
+                    pend_new.append(l.split()[2])
+                elif l.startswith("ev c0 "):
+                    pend_prev, pend_new = [], []
+                elif l.startswith("tx c0 "):
+                    for f in apci.split_stream(bytes.fromhex(l.split()[2]))[0]:
+                        a = apci.parse_apdu(f)
+                        if a["kind"] != "I":
+                            continue
+                        typ, cot = a["asdu"][0], a["asdu"][2] & 63
+                        if typ == 30:
+                            if pend_prev and not bad:
+                                bad = "event %d transmitted while %d replies issued earlier are still waiting (next: %s)" % (a["asdu"][6] | a["asdu"][7] << 8, len(pend_prev), pend_prev[0])
+                        else:
+                            tag = "reply=%d" % (a["asdu"][6] | a["asdu"][7] << 8) if typ == 200 else ("actcon" if cot == 7 else "actterm")
+                            if pend_prev and pend_prev[0] == tag:
+                                pend_prev.pop(0)
+                            elif pend_new and pend_new[0] == tag and not pend_prev:
+                                pend_new.pop(0)
+                    pend_prev, pend_new = pend_prev + pend_new, []
         if bad:
             ck.fail("input", "oracle:order:server", "server scheduling: " + bad, {"script": lines, "observed": cout[-8:]})
         ck.nontriv(("trace", sid))
@@ -275,6 +301,7 @@ def run(ck):
     run_unit(ck, h, m, rng, quick)
     run_trace(ck, rng, quick)
     run_resume(ck, rng, quick)
+    c06.run_resume_replies(ck, rng, quick, sig="oracle:resume-replies:server")
     ck.extra["exhaustive"] = False
 
 
